@@ -21,6 +21,10 @@ def run(chk):
     recs = E.explore(chk, 'depth2', [DOCS[0], DOCS[1], DOCS[3]] if quick else DOCS, 2, E.ALL_KINDS, names=('zz',), strs=('S t',),
                      materials=(('X',), (7,)) if quick else (('X',), (1,), (5, 'Y'), (7,)))
     E.replay_all(chk, recs, 'C15')
+    # string assignments including the empty string, three deep (the string is read and set again after it was emptied)
+    recs3 = E.explore(chk, 'strings3', ['\\begin{c}x\\end{c} \\t{T}'], 3, ['set_string', 'append', 'delete', 'args_append'], names=('zz',), strs=('', 'u'),
+                      materials=(('',), ('X',)))
+    E.replay_all(chk, recs3, 'C15')
     for r in recs[:1] + recs[-2:]:
         chk.sample({'source': from_atoms(r['i']), 'history': [E.show_op(e['op']) for e in r['h']], 'text_after': from_atoms(r['h'][-1]['obs']['t'])})
     srcs = c05.TWINS
